@@ -1,0 +1,50 @@
+//go:build verif
+
+package consoleui
+
+import "mltwist/internal/consoleui/internal/view"
+
+// This file is compiled only with the verif build tag. It exposes internals of
+// the UI to the external verification harness; it only reads state or forwards
+// to the unexported functions.
+
+// VerifFormat forwards to format.
+func VerifFormat(s string, indent int, width int) string { return format(s, indent, width) }
+
+// VerifProcessCommand reads and executes a single command line.
+func (c *UI) VerifProcessCommand() error { return c.processCommand() }
+
+// VerifScreen returns the screen the Run method renders before every command.
+func (c *UI) verifScreen() view.View {
+	return view.NewComposite(c.mode().mode.View(), commandPrompt{})
+}
+
+// VerifPrintScreen renders the screen for a terminal with screenLines rows.
+func (c *UI) VerifPrintScreen(screenLines int) error {
+	return view.VerifPrint(c.verifScreen(), screenLines)
+}
+
+// VerifScreenLimits returns MinLines and MaxLines of the screen.
+func (c *UI) VerifScreenLimits() (int, int) {
+	s := c.verifScreen()
+	return s.MinLines(), s.MaxLines()
+}
+
+// VerifDepth returns number of modes on the mode stack.
+func (c *UI) VerifDepth() int { return len(c.modeStack) }
+
+// VerifModeName returns name of the current mode.
+func (c *UI) VerifModeName() string { return c.mode().name }
+
+// VerifMode returns the current mode.
+func (c *UI) VerifMode() Mode { return c.mode().mode }
+
+// VerifCommand describes command key in the current mode.
+func (c *UI) VerifCommand(key string) (args int, optional bool, ok bool) {
+	cmd, ok := c.cmd(key)
+	if !ok {
+		return 0, false, false
+	}
+
+	return len(cmd.Args), cmd.OptionalArgs != nil, true
+}
